@@ -329,6 +329,9 @@ def operator_call(tr, opname, ops, n, callee):
                 if info is None:
                     tr.bad('sort comparator form', n)
                 return '((void)0) /* std::ranges::stable_sort(<range>, %s): trusted */' % info['fn']
+            if '__mismatch_fn' in t and len(ops) >= 3 and all(x.get('kind') == 'CXXDefaultArgExpr' for x in ops[3:]) and tr.klass(ops[1]) in ('str', 'sv') and tr.klass(ops[2]) in ('str', 'sv'):
+                # std::ranges::mismatch(r1, r2) over two character ranges: first position where they differ
+                return 'sv_mismatch(%s, %s)' % (as_sv(tr, ops[1]), as_sv(tr, ops[2]))
             for key, alg in RANGES.items():
                 if key in t:
                     rng = ops[1]
